@@ -411,9 +411,9 @@ def report(ctx: click.Context, tjp_file: Optional[str], output_csv: bool, output
                 report_content = json.dumps(report_data, indent=2)
                 if verbose:
                     logger.debug("Replaced report_id with SHA256 hash: %s", file_hash)
-            except json.JSONDecodeError:
-                # If JSON parsing fails, keep original content
-                logger.warning("Failed to parse JSON for report_id replacement")
+            except json.JSONDecodeError as e:
+                # Never emit something that is not the report: stdout is the data channel
+                raise ReportGenerationError(f"Generated report is not valid JSON: {e}") from e
 
         # Handle output
         if output:
